@@ -129,6 +129,8 @@ def main():
         # the evidence file of a run against a seeded change is not evidence about /repo: restore
         if ev_saved is not None:
             open(ev, "w").write(ev_saved)
+        # generated model sources were regenerated from the seeded tree: put the committed ones back
+        sh("git checkout -- lean/RigModel/Gen", cwd=VERIF)
     lines = [l for l in cout.splitlines() if l.startswith("VIOLATION") or l.startswith("KNOWN-FINDING") or l.startswith("INFRA")]
     replays = []
     for l in lines:
